@@ -2223,7 +2223,8 @@ theorem vi_stops_by_tolerance (m : MDP) (rep : Rep) (hrep : RepOK m rep) (hA : 0
 theorem sites_match_model :
     AITB.Gen.C01.viLoopOrder = ["init2tol", "useTolSmall", "while", "inc", "save", "discount", "computeQ", "bellman", "absmax", "ret"] ∧
     AITB.Gen.C01.peLoopOrder = ["init2tol", "useTolSmall", "while", "save", "discount", "computeQ", "dot", "absmax"] ∧
-    AITB.Gen.C01.lpSites = ["objUniform", "minimise", "rowEigen", "rowGeneric", "plusOne", "GE", "assembleQ"] ∧
+    AITB.Gen.C01.lpSites = ["lpOfS", "resizeSA", "objUniform", "minimise", "loopS", "unbounded", "loopA", "rowEigen", "loopS1", "rowGeneric", "plusOne", "GE", "solveS", "throwIfNone", "assembleQ", "argmaxRows"] ∧
+    AITB.Gen.C01.qPolicyHoldsReference = true ∧
     AITB.Gen.C01.bellmanInplaceIsMaxCoeffOverActions = true ∧
     AITB.Gen.C01.computeQSites = ["irGeneric", "qEigen", "qGeneric"] ∧
     AITB.Gen.C01.greedySites = (if AITB.Gen.C01.greedyTrueMaxFirst then ["init", "trueMax", "count0", "countTies", "fillFrom0", "tieGeneral2", "recip", "zero"]
@@ -2234,6 +2235,108 @@ theorem sites_match_model :
     AITB.Gen.C01.viStartSites = ["sizeOfParam", "neS", "defaultZero", "else", "copyParam", "v1NotReadBefore"] ∧
     AITB.Gen.C01.setterSites = ["viTolThrowsNeg", "viTolAssign", "viHorizon", "viParam", "peTolThrowsNeg", "peTolAssign"] ∧
     AITB.Gen.C01.piSites = ["eval", "greedyOfQfun", "matrix0", "label", "evalP", "warm", "qfunGetsQ", "newMatrix", "diffSmall", "moveMatrix", "goto", "ret"] := by decide
+
+/-! ## `bellmanOperator`; the shared LP row buffer -/
+
+theorem bellmanOp_spec (S A : Nat) (q : Mat) :
+    (bellmanOp S A q).values.size = S ∧ (bellmanOp S A q).actions.size = S ∧
+    ∀ s, s < S → (bellmanOp S A q).values.get s = maxTo (A - 1) (q.get s) ∧
+                 natAt (bellmanOp S A q).actions s = argmaxTo (A - 1) (q.get s) ∧
+                 (bellmanOp S A q).values.get s = q.get s (natAt (bellmanOp S A q).actions s) := by
+  unfold bellmanOp bellmanInplace
+  simp only [mkVec_size, mkNats_size]
+  refine ⟨trivial, trivial, ?_⟩
+  intro s hs
+  rw [mkVec_get _ hs, mkNats_get _ hs, if_pos hs]
+  exact ⟨rfl, rfl, maxTo_eq_argmax _ _⟩
+
+/-! ### the shared `lp.row` buffer -/
+
+theorem writeTo_size (f : Nat → Rat) : ∀ n (b : Vec), (writeTo n f b).size = b.size := by
+  intro n
+  induction n with
+  | zero => intro b; rfl
+  | succ n ih => intro b; simp [writeTo, ih]
+
+theorem writeTo_get (f : Nat → Rat) : ∀ n (b : Vec) i, i < b.size →
+    (writeTo n f b).get i = if i < n then f i else b.get i := by
+  intro n
+  induction n with
+  | zero => intro b i _; simp [writeTo]
+  | succ n ih =>
+    intro b i hi
+    simp only [writeTo, Vec.get]
+    by_cases h : i = n
+    · subst h
+      have : i < (writeTo i f b).size := by rw [writeTo_size]; exact hi
+      simp [Array.getD, Array.setIfInBounds, this]
+    · have h1 := ih b i hi
+      simp only [Vec.get] at h1
+      rw [Array.getD_eq_getD_getElem?, Array.getElem?_setIfInBounds_ne (Ne.symm h), ← Array.getD_eq_getD_getElem?, h1]
+      by_cases h2 : i < n
+      · simp [h2, Nat.lt_succ_of_lt h2]
+      · have : ¬ i < n + 1 := by omega
+        simp [h2, this]
+
+theorem get_setIfInBounds (b : Vec) (i j : Nat) (x : Rat) (hi : i < b.size) :
+    Vec.get (b.setIfInBounds i x) j = if j = i then x else b.get j := by
+  unfold Vec.get
+  rw [Array.getD_eq_getD_getElem?, Array.getD_eq_getD_getElem?]
+  by_cases h : j = i
+  · subst h
+    rw [Array.getElem?_setIfInBounds_self_of_lt hi]
+    simp
+  · rw [Array.getElem?_setIfInBounds_ne (Ne.symm h)]
+    simp [h]
+
+/-- **lpRowPass_spec.**  Whatever the buffer held before (the objective's 1/S entries, or the previous row with its `+1`), after the pass
+    it holds exactly the constraint row of (s,a): nothing leaks from one `pushRow` to the next. -/
+theorem lpRowPass_spec (m : MDP) (s a : Nat) (hs : s < m.S) (buf : Vec) (hb : buf.size = m.S) :
+    (lpRowPass m s a buf).size = m.S ∧ ∀ s1, s1 < m.S → Vec.get (lpRowPass m s a buf) s1 = lpCoeff m s a s1 := by
+  have hsz : (writeTo m.S (fun s1 => -m.γ * m.T s a s1) buf).size = m.S := by rw [writeTo_size, hb]
+  refine ⟨?_, ?_⟩
+  · unfold lpRowPass
+    rw [Array.size_setIfInBounds, hsz]
+  · intro s1 h1
+    unfold lpRowPass lpCoeff
+    rw [get_setIfInBounds _ s s1 _ (by rw [hsz]; exact hs)]
+    by_cases h : s1 = s
+    · subst h
+      rw [if_pos rfl, if_pos rfl, writeTo_get _ _ _ _ (by rw [hb]; exact h1), if_pos h1]
+    · rw [if_neg h, if_neg h, writeTo_get _ _ _ _ (by rw [hb]; exact h1), if_pos h1]
+      ring
+
+/-- **lpPushAll_rows.**  Starting from ANY buffer of S entries (the code starts from the objective row 1/S), the k-th pushed row
+    (k = s·A + a, all S·A of them) is the constraint row of (s,a). -/
+theorem lpPushAll_rows (m : MDP) (hA : 0 < m.A) (buf : Vec) (hb : buf.size = m.S) :
+    ∀ n, n ≤ m.S * m.A → ((lpPushAll m n buf).1.size = m.S ∧ (lpPushAll m n buf).2.length = n ∧
+      ∀ k, k < n → ∀ s1, s1 < m.S → Vec.get ((lpPushAll m n buf).2.getD k #[]) s1 = lpCoeff m (k / m.A) (k % m.A) s1) := by
+  intro n
+  induction n with
+  | zero => intro _; exact ⟨hb, rfl, fun k hk => absurd hk (Nat.not_lt_zero k)⟩
+  | succ n ih =>
+    intro hn
+    obtain ⟨h1, h2, h3⟩ := ih (by omega)
+    have hs : n / m.A < m.S := by
+      apply Nat.div_lt_of_lt_mul
+      rw [Nat.mul_comm]; omega
+    obtain ⟨p1, p2⟩ := lpRowPass_spec m (n / m.A) (n % m.A) hs (lpPushAll m n buf).1 h1
+    simp only [lpPushAll]
+    refine ⟨p1, by simp [h2], ?_⟩
+    intro k hk s1 hs1
+    by_cases hkn : k < n
+    · have e : (((lpPushAll m n buf).2 ++ [lpRowPass m (n / m.A) (n % m.A) (lpPushAll m n buf).1]).getD k #[]) = (lpPushAll m n buf).2.getD k #[] := by
+        rw [List.getD_eq_getElem?_getD, List.getD_eq_getElem?_getD, List.getElem?_append_left (by rw [h2]; exact hkn)]
+      rw [e]
+      exact h3 k hkn s1 hs1
+    · have : k = n := by omega
+      subst this
+      have e : (((lpPushAll m k buf).2 ++ [lpRowPass m (k / m.A) (k % m.A) (lpPushAll m k buf).1]).getD k #[]) = lpRowPass m (k / m.A) (k % m.A) (lpPushAll m k buf).1 := by
+        rw [List.getD_eq_getElem?_getD, List.getElem?_append_right (by rw [h2]), h2, Nat.sub_self]
+        simp
+      rw [e]
+      exact p2 s1 hs1
+
 
 /-! ## the solver object across calls: no answer depends on earlier calls or on the moved-from internal vector -/
 
